@@ -4,8 +4,10 @@
   The launch section of implObs (local bind maps and TaskInfo ports produced by
   the real makeTaskForMesosResources) is environment-determined, so it is
   checked as a monitor (REJECT:<why> if it violates the launch postcondition the
-  theorems assume); the configure section is predicted by the model from the
-  input and the launch section, and the answer is "(launch configure_model)".
+  theorems assume); the configure section is predicted by the model of the code
+  AS IT IS (`configure` = `configureWith codeCfg`: the per-task alias check of
+  configureTasks included) from the input and the launch section, and the answer
+  is "(launch configure_model)".
 
   Template form: line = "(hosts classes ttree sw)<TAB>(launch configure seen)" â€” the
   workflow template (iterators, templated names / targets / aliases, see
@@ -238,12 +240,11 @@ def judge (hosts : List (String Ã— List (Nat Ã— Nat))) (classes : List (String Ã
       | some r =>
         if specW false false r then (true, "-")
         else
-          -- attribute the failure to an excluded hypothesis only if nothing else is wrong
+          -- attribute the failure to the excluded hypothesis only if nothing else is wrong. (The
+          -- class "two channels of one task name one alias" is no longer excluded: the code rejects
+          -- it â€” Cfg.aliasPerTask â€” and an outcome that lets it through is a plain violation.)
           let ntOk := noInboundTarget tasks
-          let advOk := tasks.all fun t => decide (aliasesAdvertised t)
           if !ntOk && specW true false r then (false, "inbound_target_still_advertised")
-          else if !advOk && specW false true r then (false, "alias_redefined_within_task")
-          else if !ntOk && !advOk && specW true true r then (false, "inbound_target_still_advertised")
           else (false, "-")
     s!"{modelObs}\t{if spec then 1 else 0}\t{hyp}"
 
